@@ -184,7 +184,8 @@ def handleL5c (j : Json) : Except String Json := do
     (if c11 then "" else s!"two Statements share a cache id ({gn oj "dupIDs"}), Statement entries left after everything was dropped ({gn oj "stmtEntriesLeft"}), a statement was closed while a user still held it, or after dropping everything: open driver statements {gn oj "openStmts"}, cache entries {gn oj "cacheLeft"}, double closes {gn oj "doubleClose"}")
   pure (Json.mkObj [("c09", Json.bool c09), ("c10", Json.bool c10), ("c11", Json.bool c11), ("c12", Json.bool (txOk && gn oj "txAfterEnd" == 0)),
     -- C16: the SQL a call runs is the SQL of its own arguments, whatever runs concurrently
-    ("c16", Json.bool (holdsC09 execs)), ("why", Json.str why),
+    -- (and Statements and DBs made at the same moment are distinct cache keys: "IDs by atomics")
+    ("c16", Json.bool (holdsC09 execs && gn oj "dupIDs" == 0 && gn oj "dbStray" == 0)), ("why", Json.str why),
     ("execs", (execs.length : Json))])
 
 def handleRt (j : Json) : Except String Json := do
